@@ -110,6 +110,16 @@ def run(ch, build):
     rgo = core.harness(rcmds)
     rmodel = core.oracle(rcmds)
     ch.compare("roundtrip-reused-layer", rcmds, rgo, rmodel, rexp, descs=rdesc)
+    # reserved bits a BMC may set: bit 5 of the ID string type/length byte of a Full Sensor Record (IPMI v2.0 43.1, byte 48:
+    # [7:6] type, [5] reserved, [4:0] length) is ignored - the record decodes to the same value
+    vcmds, vexp, vdesc = [], [], []
+    for i, (name, shape, nt) in enumerate(dmeta):
+        h = dec_cmds[i].split(" ")[3]
+        if name != "fsr" or h == "-" or len(h) < 86 or (ch.quick() and ch.rng.randrange(3)):
+            continue
+        b = bytearray(bytes.fromhex(h)); b[42] |= 0x20
+        vcmds.append("dec fsr _ %s" % bytes(b).hex()); vexp.append(expect[i]); vdesc.append({"kind": "c07-reserved-bit", "layer": "fsr", "shape": shape})
+    ch.compare("fsr-reserved-bit-set", vcmds, core.harness(vcmds), core.oracle(vcmds), vexp, descs=vdesc)
     reject(ch)
     return ch.finish(rule=RULE, assumptions=[
         "spec tables written from IPMI v2.0 rev 1.1 / DCMI 1.5 as reproduced in the code's field comments and pinned tests (the PDFs under /repo/specifications are LFS stubs); observations O1-O6 of DESIGN.md follow the library's documented choice",
